@@ -108,6 +108,16 @@ func Snapshot(exclude ...string) map[string]SnapEntry {
 	walk = func(p string) {
 		for _, x := range exclude {
 			if p == x {
+				// the excluded root itself is still watched for being replaced: its type,
+				// inode and (if it became one) link target - not its attributes or contents
+				if fi, err := os.Lstat(p); err == nil {
+					st := fi.Sys().(*syscall.Stat_t)
+					e := SnapEntry{Type: "excluded-root:" + fi.Mode().Type().String(), Ino: st.Ino}
+					if fi.Mode()&os.ModeSymlink != 0 {
+						e.Target, _ = os.Readlink(p)
+					}
+					out[p] = e
+				}
 				return
 			}
 		}
